@@ -22,7 +22,8 @@ func main() {
 		"C18":       run,
 		"c18worker": func([]string) { subproc.Serve(c18.Handle) },
 		"c18race":   racePass,
-		"C05T":      c05threads,
+		"C05T":      func(a []string) { threadPart("C05T", clockScenarios, c05tRule, 3, 4, a) },
+		"C06T":      func(a []string) { threadPart("C06T", crashScenarios, c06tRule, 2, 3, a) },
 		"c18points": func(a []string) { // debugging aid: print the scheduling points of one execution
 			var c c18.Case
 			json.Unmarshal([]byte(a[0]), &c)
@@ -334,11 +335,25 @@ func doReplay(path string) int {
 
 func clockScenarios(tier string) []c18.Scenario {
 	T := func(calls ...c18.Call) []c18.Call { return calls }
-	scs := []c18.Scenario{
+	// the in-memory scenarios come first: they take about a second, and the time budget is shared
+	// evenly among the scenarios that are still to run
+	var scs []c18.Scenario
+	for _, impl := range []string{"bare", "mock"} {
+		n := "in-memory clock (" + impl + "): "
+		scs = append(scs,
+			c18.Scenario{Name: n + "witness(+10) || witness(+20)+read", MemClock: impl, Threads: [][]c18.Call{T(c18.CClockWitness), T(c18.CClockWitnessHigh, c18.CClockRead)}},
+			c18.Scenario{Name: n + "witness(+10)+increment || witness(+20)+increment", MemClock: impl, Threads: [][]c18.Call{T(c18.CClockWitness, c18.CClockInc), T(c18.CClockWitnessHigh, c18.CClockInc)}},
+			c18.Scenario{Name: n + "increment+increment || witness(+10)+read", MemClock: impl, Threads: [][]c18.Call{T(c18.CClockInc, c18.CClockInc), T(c18.CClockWitness, c18.CClockRead)}})
+		if tier == "thorough" {
+			scs = append(scs,
+				c18.Scenario{Name: n + "increment || witness(+10) || witness(+20)+read", MemClock: impl, Threads: [][]c18.Call{T(c18.CClockInc), T(c18.CClockWitness), T(c18.CClockWitnessHigh, c18.CClockRead)}})
+		}
+	}
+	scs = append(scs, []c18.Scenario{
 		{Name: "clock: increment || increment", Clock: true, IO: true, Threads: [][]c18.Call{T(c18.CClockInc), T(c18.CClockInc)}},
 		{Name: "clock: increment || witness", Clock: true, IO: true, Threads: [][]c18.Call{T(c18.CClockInc), T(c18.CClockWitness)}},
 		{Name: "clock: increment+increment || witness", Clock: true, IO: true, Threads: [][]c18.Call{T(c18.CClockInc, c18.CClockInc), T(c18.CClockWitness)}},
-	}
+	}...)
 	if tier == "thorough" {
 		scs = append(scs,
 			c18.Scenario{Name: "clock: increment || increment || witness", Clock: true, IO: true, Threads: [][]c18.Call{T(c18.CClockInc), T(c18.CClockInc), T(c18.CClockWitness)}},
@@ -356,8 +371,27 @@ type c05tFound struct {
 	Choices  []int        `json:"choices"`
 }
 
-func c05threads(args []string) {
-	fs := flag.NewFlagSet("C05T", flag.ExitOnError)
+const c05tRule = "all schedules of the listed threads with at most the completed number of preemptions; scheduling points are the lock operations of packages repository and util/lamport, the atomic operations of util/lamport and the file operations of the local storage (clock files); persisted flavour: the repository handle is freshly opened without clock loaders, so the first use of the clock happens under the threads; in-memory flavours: a bare lamport.MemClock and the clock of repository.NewMockRepo()"
+
+const c06tRule = "crash-in-schedule: all schedules (at most the completed number of preemptions) of one thread writing the bugs-edit clock and one thread doing what dag.merge does for a fetched new bug (witness its times, CopyRef); scheduling points are lock and atomic operations and the file operations of the local storage (TempFile, Create, OpenFile, Rename, Remove); at every scheduling point after the merging thread has returned, and at the end, the on-disk state is a crash image: distinct images (by clock files, local bug refs, rebuild marker) are copied, opened with OpenGoGitRepo + bug.ClockLoader and must hold clocks at or above every time stored under a local bug ref"
+
+// crashScenarios: the crash-in-schedule scenarios of C06.
+func crashScenarios(tier string) []c18.Scenario {
+	T := func(calls ...c18.Call) []c18.Call { return calls }
+	scs := []c18.Scenario{
+		{Name: "crash-in-schedule: witness(far) || merge-new-remote-bug", Clock: true, Crash: true, IO: true, Threads: [][]c18.Call{T(c18.CClockWitnessFar), T(c18.CMergeNew)}},
+		{Name: "crash-in-schedule: increment || merge-new-remote-bug", Clock: true, Crash: true, IO: true, Threads: [][]c18.Call{T(c18.CClockInc), T(c18.CMergeNew)}},
+	}
+	if tier == "thorough" {
+		scs = append(scs,
+			c18.Scenario{Name: "crash-in-schedule: increment+witness(far) || merge-new-remote-bug", Clock: true, Crash: true, IO: true, Threads: [][]c18.Call{T(c18.CClockInc, c18.CClockWitnessFar), T(c18.CMergeNew)}},
+			c18.Scenario{Name: "crash-in-schedule: witness(far) || increment || merge-new-remote-bug", Clock: true, Crash: true, IO: true, Threads: [][]c18.Call{T(c18.CClockWitnessFar), T(c18.CClockInc), T(c18.CMergeNew)}})
+	}
+	return scs
+}
+
+func threadPart(cmdName string, scenarios func(string) []c18.Scenario, rule string, boundQuick, boundThorough int, args []string) {
+	fs := flag.NewFlagSet(cmdName, flag.ExitOnError)
 	replay := fs.String("replay", "", "replay file")
 	fs.Parse(args)
 	if *replay != "" {
@@ -365,9 +399,9 @@ func c05threads(args []string) {
 	}
 	tier := evidence.Tier()
 	budget := 60 * time.Second
-	maxBound := 3
+	maxBound := boundQuick
 	if tier == "thorough" {
-		budget, maxBound = 10*time.Minute, 4
+		budget, maxBound = 10*time.Minute, boundThorough
 	}
 	deadline := time.Now().Add(budget)
 	out := map[string]any{}
@@ -375,7 +409,7 @@ func c05threads(args []string) {
 	var per []map[string]any
 	execs, points := 0, 0
 	exhaustive, harnessErr := true, false
-	scs := clockScenarios(tier)
+	scs := scenarios(tier)
 	for i, sc := range scs {
 		scDeadline := time.Now().Add(time.Until(deadline) / time.Duration(len(scs)-i))
 		st := c18newStats()
@@ -438,7 +472,7 @@ func c05threads(args []string) {
 			}
 			prev = cur.Found
 		}
-		fmt.Fprintf(os.Stderr, "C05 threads %-45s bound<=%d: executions=%d points=%d distinct outcomes=%d problems=%d\n", sc.Name, completed, st.Execs, st.Points, len(st.Outcomes), len(st.Found))
+		fmt.Fprintf(os.Stderr, cmdName+" threads %-45s bound<=%d: executions=%d points=%d distinct outcomes=%d problems=%d\n", sc.Name, completed, st.Execs, st.Points, len(st.Outcomes), len(st.Found))
 		per = append(per, map[string]any{"scenario": sc.Name, "threads": sc.Threads, "completed_preemption_bound": completed, "executions": st.Execs,
 			"scheduling_points": st.Points, "distinct_outcomes": len(st.Outcomes), "outcomes": st.Outcomes})
 		execs += st.Execs
@@ -455,7 +489,7 @@ func c05threads(args []string) {
 	}
 	out["executions"], out["scheduling_points"], out["scenarios"] = execs, points, per
 	out["exhaustive"], out["harness_error"], out["found"] = exhaustive && !harnessErr, harnessErr, found
-	out["rule"] = "all schedules of the listed threads with at most the completed number of preemptions; scheduling points are the lock operations of packages repository and util/lamport and the file operations of the local storage (clock files); the repository handle is freshly opened without clock loaders, so the first use of the clock happens under the threads"
+	out["rule"] = rule
 	b, _ := json.Marshal(out)
 	fmt.Println(string(b))
 }
